@@ -199,7 +199,7 @@ class Generator(Curve, Point):
         if gen_k is None:
             gen_k = deterministic_generate_k
         n = self._order
-        k = gen_k(n, secret_exponent, val)  # type: ignore[arg-type]
+        k = k0 = gen_k(n, secret_exponent, val)  # type: ignore[arg-type]
         while True:
             p1 = k * self
             r = p1[0] % n  # type: ignore[operator]
@@ -209,7 +209,10 @@ class Generator(Curve, Point):
                 if p1[0] > n:  # type: ignore[operator]
                     recid += 2
                 return r, s, recid
-            k += 1
+            # try the next candidate, staying inside [1, n-1]
+            k = k % (n - 1) + 1  # type: ignore[operator]
+            if k == k0:
+                raise ValueError("no nonce yields a valid signature")
 
     def sign(
         self,
